@@ -25,8 +25,21 @@ Definition c05_case {R} (ops : numops R) (seed body outs : sx) : sx :=
   | _, _, _ => bad_case
   end.
 
+(* (5 2 seed body outputs): FLOAT ORACLE, see Run/RunC04.v: flags computed and checked on the Rust
+   side only (forms agree; forward = reverse derivative for the seeded variable; numbers = plain
+   f64); the model validates the case and answers the expected flags. *)
+Definition c05_float_case (seed body outs : sx) : sx :=
+  match dnat seed, dprog Qops body, dlist dnat outs with
+  | Some seed, Some prog, Some outs =>
+      if forallb (fun o => Nat.ltb o (length prog)) outs
+         && existsb (Nat.eqb seed) (var_nodes prog)
+      then float_flags else bad_case
+  | _, _, _ => bad_case
+  end.
+
 Definition run_c05 (args : list sx) : sx :=
   match args with
   | [SZ 1%Z; SZ ty; seed; body; outs] => with_ty ty (fun R ops => c05_case ops seed body outs)
+  | [SZ 2%Z; seed; body; outs] => c05_float_case seed body outs
   | _ => bad_case
   end.
